@@ -786,10 +786,12 @@ class _LRun:
                     m = None
                 if m is not None and any(isinstance(n, (ast.Yield, ast.YieldFrom)) for n in ast.walk(m)):
                     leaf_ok = isinstance(s, ast.Expr)
+                    to_names = False
                     if isinstance(s, ast.For) and isinstance(s.target, ast.Name) and not s.orelse and len(s.body) == 1 and isinstance(s.body[0], ast.Expr) \
                             and isinstance(s.body[0].value, ast.Yield) and s.body[0].value.value is not None:
                         y = s.body[0].value.value
-                        leaf_ok = is_name(y, s.target.id) or (isinstance(y, ast.Attribute) and y.attr in ('filename', 'name') and is_name(y.value, s.target.id))
+                        to_names = isinstance(y, ast.Attribute) and y.attr == 'filename' and is_name(y.value, s.target.id)
+                        leaf_ok = is_name(y, s.target.id) or to_names
                     mparams = [a.arg for a in m.args.posonlyargs + m.args.args][1:]
                     kwonly = [a.arg for a in m.args.kwonlyargs]
                     menv = {k: ('c', v) for k, v in _defaults(m, partial=True).items()}
@@ -797,10 +799,13 @@ class _LRun:
                         for nm, a in list(zip(mparams, dcall.args)) + [(k.arg, k.value) for k in dcall.keywords]:
                             menv[nm] = self.ev(a, env, depth)
                         if all(q in menv for q in mparams + kwonly):
+                            n0 = len(self.out)
                             try:
                                 self.run(fn_body(m), menv, depth + 1)
                             except _LRet:
                                 pass
+                            if to_names:       # the FileInfo objects of the inner method, turned into their listed names
+                                self.out[n0:] = [(a, b, 'names' if k == 'infos' else 'other') for a, b, k in self.out[n0:]]
                             continue
             if isinstance(s, ast.For) and not s.orelse:
                 it = self.ev(s.iter, env, depth)
@@ -821,11 +826,14 @@ class _LRun:
                 if it == ('L2',) and isinstance(s.target, ast.Name) and len(s.body) == 1 and isinstance(s.body[0], ast.Expr) \
                         and isinstance(s.body[0].value, ast.Yield) and s.body[0].value.value is not None:
                     y = s.body[0].value.value
-                    if is_name(y, s.target.id) or (isinstance(y, ast.Attribute) and y.attr in ('filename', 'name') and is_name(y.value, s.target.id)):
-                        self.out.append((self.sel, dfilter, 'files'))
+                    if is_name(y, s.target.id):
+                        self.out.append((self.sel, dfilter, 'infos'))
+                        continue
+                    if isinstance(y, ast.Attribute) and y.attr == 'filename' and is_name(y.value, s.target.id):
+                        self.out.append((self.sel, dfilter, 'names'))
                         continue
             if isinstance(s, ast.Expr) and isinstance(s.value, ast.YieldFrom) and self.ev(s.value.value, env, depth) == ('L2',):
-                self.out.append((self.sel, dfilter, 'files'))
+                self.out.append((self.sel, dfilter, 'infos'))
                 continue
             if isinstance(s, ast.Expr) and isinstance(s.value, ast.Call) and ast.unparse(s.value.func) == 'os.makedirs':
                 continue        # creates a directory on disk: no effect on what is walked
@@ -869,7 +877,7 @@ def extract_walk(fn: ast.FunctionDef, cls: ast.ClassDef) -> tuple[str, str, bool
     return 'EOtherSel', 'DOtherSel', False
 
 
-def listing_with_arguments(fn: ast.FunctionDef, cls: ast.ClassDef) -> list[tuple[bool, bool, str, str, bool]]:
+def listing_with_arguments(fn: ast.FunctionDef, cls: ast.ClassDef, leaf: str) -> list[tuple[bool, bool, str, str, bool]]:
     """(extension given?, folder given?, ext_sel, dir_sel, every file of a visited folder is yielded) for the four combinations"""
     params = [a.arg for a in fn.args.posonlyargs + fn.args.args + fn.args.kwonlyargs][1:]
     dflt = _defaults(fn)
@@ -887,7 +895,7 @@ def listing_with_arguments(fn: ast.FunctionDef, cls: ast.ClassDef) -> list[tuple
                     pass
                 if r.sel == 'none' and not r.out:
                     out.append((eg, fg, 'EOtherSel', 'DAll', True))
-                elif len(r.out) == 1 and r.out[0][2] == 'files':
+                elif len(r.out) == 1 and r.out[0][2] == leaf:
                     sel, df, _ = r.out[0]
                     out.append((eg, fg, {'all': 'EAll', 'only': 'EOnly'}.get(sel, 'EOtherSel'), df, True))
                 else:
@@ -929,13 +937,18 @@ def translate() -> tuple[str, dict]:
                 if w:
                     others[f'{cls.name}.{f.name}'] = w
     lr_ok, lr_why = load_resets(find_def(vpk.body, ast.FunctionDef, 'load_dirfile'))
+    lwalks = {nm: listing_with_arguments(find_def(vpk.body, ast.FunctionDef, nm), vpk, leaf) for nm, leaf in (('filenames', 'names'), ('fileinfos', 'infos'))}
     walks = {}
     for nm, want in (('__iter__', 'infos'), ('__len__', 'count'), ('filenames', 'names'), ('fileinfos', 'infos')):
         try:
             walks[nm] = (walk_shape(find_def(vpk.body, ast.FunctionDef, nm), vpk), want)
         except TranslateError as e:       # a shape that is not understood is a failed (named) obligation, not a failed translation
-            walks[nm] = (f'not understood: {e}', want)
-    lwalks = {nm: listing_with_arguments(find_def(vpk.body, ast.FunctionDef, nm), vpk) for nm in ('filenames', 'fileinfos')}
+            # the executor of the listing methods with arguments understands more spellings (helpers with try/except, early returns):
+            # its run with both arguments at their defaults decides the default walk as well
+            if any(r == (False, False, 'EAll', 'DAll', True) for r in lwalks.get(nm, [])):
+                walks[nm] = (want, want)
+            else:
+                walks[nm] = (f'not understood: {e}', want)
     exw = extract_walk(find_def(vpk.body, ast.FunctionDef, 'extract_all'), vpk)
     side = {'extract_all_walk': exw, 'listing_with_arguments': lwalks, 'mode_table': mt, 'exit_table': rows, 'guarded': sorted(guarded), 'fileinfo_write_guarded': fw_ok, 'check_writable_def': chk_def,
             'other_mutating_methods': others, 'load_resets': lr_ok, 'load_resets_problems': lr_why, 'walks': {k: v[0] for k, v in walks.items()},
